@@ -48,6 +48,24 @@ def seeded_table():
     return "\n".join(out)
 
 
+def neutral_table():
+    out = ["| refactoring | written against | what was changed (sub-agent's words) | checks that stay silent | false alarms | lost anchors (exit 2) |", "|---|---|---|---|---|---|"]
+    tot = clean = 0
+    for sd in sorted((V / "neutral").iterdir()):
+        mf = sd / "meta.json"
+        if not mf.is_file():
+            continue
+        m = json.loads(mf.read_text())
+        tot += 1
+        fa, ab = m.get("false_alarms") or {}, m.get("analysis_broken") or {}
+        clean += not fa and not ab
+        what = (m.get("what_changed") or "").replace("|", "/").replace("\n", " ")[:200]
+        out.append(f"| {sd.name} | {m['property']} | {what} | {len(m.get('silent', []))}/18 | {'; '.join(f'{k}: {len(v)}' for k, v in fa.items()) or '—'} | {', '.join(ab) or '—'} |")
+    out.append("")
+    out.append(f"{clean} of {tot} behaviour-preserving refactorings leave all 18 checks silent (exit 0, no new finding).")
+    return "\n".join(out)
+
+
 def findings_table():
     d = json.loads((V / "known_findings.json").read_text())["findings"]
     out = ["| status | property | rule | construct | what fails |", "|---|---|---|---|---|"]
@@ -59,7 +77,7 @@ def findings_table():
 def main():
     p = V / "DESIGN.md"
     s = p.read_text()
-    for name, fn in (("rules", rules_table), ("seeded", seeded_table), ("findings", findings_table)):
+    for name, fn in (("rules", rules_table), ("seeded", seeded_table), ("findings", findings_table), ("neutral", neutral_table)):
         b, e = f"<!-- BEGIN:{name} -->", f"<!-- END:{name} -->"
         if b in s and e in s:
             s = s[:s.index(b) + len(b)] + "\n" + fn() + "\n" + s[s.index(e):]
